@@ -78,6 +78,121 @@ type c07Inv struct {
 	Pre    []int // contexts (any id, the own one included) cancelled before the invocation starts
 	During []int // OTHER contexts cancelled by the host callback while the invocation runs
 	Sched  string // OBSERVED, only for an invocation whose context was already cancelled at its start: e | f | l (see the Lean model, `Sched`)
+	Lay    c07Lay   // how the code object compiled for the invocation lays out its globals (RunCode: the object it is handed; Call: the definitions loaded when the VM has no code)
+	LkPre  []string // global names (tokens, see c07TokName) the host looks up with vm.Get before the invocation ...
+	LkPost []string // ... and after it
+}
+
+// c07Lay: the global names the code object is compiled with (the compiler sorts them; HSet bit 0:
+// the additional name `aaa`, for which the host supplies no global and which moves every other
+// name up one slot; bit 1: without modhook; bit 2: without hostmod), then Fills filler functions,
+// over/act in either order (functions are hoisted by the compiler in source order), then Pads
+// variables, then `who`: ONE name lives in different slots of different code objects
+type c07Lay struct {
+	HSet, Fills int
+	Swap       bool
+	Pads       int
+}
+
+func (l c07Lay) String() string {
+	if l == (c07Lay{}) {
+		return "_"
+	}
+	return fmt.Sprintf("%d.%d.%d.%d", l.HSet, l.Fills, c07B(l.Swap), l.Pads)
+}
+
+func (l c07Lay) globalNames() []string {
+	var out []string
+	if l.HSet&1 != 0 {
+		out = append(out, "aaa")
+	}
+	for _, n := range c07GlobalNames {
+		if (n == "modhook" && l.HSet&2 != 0) || (n == "hostmod" && l.HSet&4 != 0) {
+			continue
+		}
+		out = append(out, n)
+	}
+	return out
+}
+
+// c07TokName: the string of a name token (h<i>: i-th host name, a0/o0: act/over, a<k+1>/o<k+1>:
+// act_k/over_k of REPL snippet k, f<i>, g<i>, w: who, x: a name nobody defines)
+func c07TokName(t string) string {
+	n, _ := strconv.Atoi(t[1:])
+	switch t[0] {
+	case 'h':
+		return c07GlobalNames[n%len(c07GlobalNames)]
+	case 'a', 'o':
+		base := map[byte]string{'a': "act", 'o': "over"}[t[0]]
+		if n == 0 {
+			return base
+		}
+		return base + "_" + strconv.Itoa(n-1)
+	case 'f', 'g':
+		return t
+	case 'w':
+		return "who"
+	case 'e':
+		return "aaa"
+	}
+	return "nosuch"
+}
+
+func c07NameTok(name string) string {
+	for i, h := range c07GlobalNames {
+		if h == name {
+			return "h" + strconv.Itoa(i)
+		}
+	}
+	for _, p := range [][2]string{{"act", "a"}, {"over", "o"}} {
+		if name == p[0] {
+			return p[1] + "0"
+		}
+		if strings.HasPrefix(name, p[0]+"_") {
+			if n, err := strconv.Atoi(name[len(p[0])+1:]); err == nil {
+				return p[1] + strconv.Itoa(n+1)
+			}
+		}
+	}
+	if len(name) >= 2 && (name[0] == 'f' || name[0] == 'g') {
+		if _, err := strconv.Atoi(name[1:]); err == nil {
+			return name
+		}
+	}
+	if name == "who" {
+		return "w"
+	}
+	if name == "nosuch" {
+		return "x"
+	}
+	if name == "aaa" {
+		return "e"
+	}
+	return "?" + name
+}
+
+func c07Toks(xs []string) string {
+	if len(xs) == 0 {
+		return "_"
+	}
+	return strings.Join(xs, ".")
+}
+
+// c07Universe: the names worth asking for after invocation k of h: every host name, every name a
+// code object may define, a name nobody defines, and the names of the two latest REPL snippets
+func c07Universe(h []c07Inv, k int) []string {
+	u := []string{"a0", "o0", "w", "x", "e", "f0", "f1", "g0", "g1", "g2"}
+	for i := range c07GlobalNames {
+		u = append(u, "h"+strconv.Itoa(i))
+	}
+	n := 0
+	for j := k; j >= 0 && n < 2; j-- {
+		if h[j].Kind == "run" {
+			u = append(u, "a"+strconv.Itoa(j+1), "o"+strconv.Itoa(j+1))
+			n++
+		}
+	}
+	return u
 }
 
 // ctxID is the id of the context object handed to invocation k
@@ -126,7 +241,7 @@ func (v c07Inv) String() string {
 	if v.Ctx > 0 {
 		cx = strconv.Itoa(v.Ctx - 1)
 	}
-	return fmt.Sprintf("%s:%s:%d:%d:%d:%d:%s:%s:%s:%s:%s:%s", kind, v.Beh, v.Depth, v.Pend, v.V, v.Bump, bg, imp, c07Ids(v.Pre), c07Ids(v.During), cx, c07Ids(v.Grows))
+	return fmt.Sprintf("%s:%s:%d:%d:%d:%d:%s:%s:%s:%s:%s:%s:%s:%s:%s", kind, v.Beh, v.Depth, v.Pend, v.V, v.Bump, bg, imp, c07Ids(v.Pre), c07Ids(v.During), cx, c07Ids(v.Grows), v.Lay.String(), c07Toks(v.LkPre), c07Toks(v.LkPost))
 }
 
 // c07Canon makes a history well formed: only RunCode can re-supply a code object, only one
@@ -143,7 +258,12 @@ func c07Canon(h []c07Inv) []c07Inv {
 			if h[v.Same-1].Same > 0 {
 				v.Same = h[v.Same-1].Same // name the invocation the object was compiled for
 			}
+			v.Lay = h[v.Same-1].Lay // the layout of its globals is part of the code object
 		}
+		if v.Kind == "run" {
+			v.Lay = c07Lay{} // REPL snippets only append their own two functions to the main code
+		}
+		v.Lay.HSet, v.Lay.Fills, v.Lay.Pads = v.Lay.HSet%8, v.Lay.Fills%3, v.Lay.Pads%4
 		if c07MaxPend > 0 && v.Pend == c07MaxPend {
 			// a headroom probe has the exact shape its bound was measured with; it is never cut
 			// short by a stale watcher (that would leave its operands on the stack: the known
@@ -151,6 +271,7 @@ func c07Canon(h []c07Inv) []c07Inv {
 			// context of its own and its code object never grows
 			v.Kind, v.Beh, v.Depth, v.Bump, v.Imp, v.FImp, v.During = "runcode", "normal", 0, 0, false, false, nil
 			v.Ctx = 0
+			v.Lay = c07Lay{}
 			v.Pre = c07Without(v.Pre, k)
 		}
 		// only code objects that exist (compiled for an earlier RunCode) and are not probes grow
@@ -191,7 +312,7 @@ func c07ProbeInv(pend int) c07Inv {
 }
 
 func c07MeasureMaxPend() int {
-	ok := func(p int) bool { return c07Reference(0, c07ProbeInv(p), 0, false, false, 0) == "ok=1" }
+	ok := func(p int) bool { return c07Reference(0, c07ProbeInv(p), 0, false, false, 0, 0).Outcome == "ok=1" }
 	if !ok(0) || !ok(8) {
 		return 0
 	}
@@ -218,7 +339,8 @@ func c07Key(h []c07Inv) string {
 	return strings.Join(ss, " ")
 }
 
-var c07GlobalNames = []string{"hook", "boom", "acc", "len", "hostmod", "p", "modhook"}
+// sorted, as the compiler sorts the global names it is given: index = slot in a code object compiled with exactly these names
+var c07GlobalNames = []string{"acc", "boom", "hook", "hostmod", "len", "modhook", "p"}
 
 // the file module: its top-level code calls back into the host two script frames deep
 // (modhook), then - if the host says so - fails, and only then assigns `last`
@@ -267,6 +389,8 @@ type c07World struct {
 	curName   string // suffix of the act/over functions defined in the active code
 	isRef     bool   // fresh reference VM: other invocations' contexts do not exist here
 	codes     map[int]*compiler.Code // RunCode: the code object compiled for invocation k
+	hostObjs  []object.Object        // the objects supplied under c07GlobalNames, in that order
+	setupCode *compiler.Code         // the definitions loaded last for a Call on a VM without code
 	// per invocation
 	k        int
 	inv      c07Inv
@@ -293,6 +417,9 @@ func c07NewWorld(accLen int, isRef bool, withImporter bool) *c07World {
 		"hostmod": object.NewBuiltinsModule("hostmod", map[string]object.Object{"one": object.NewInt(1)}),
 		"p":       object.NewBuiltin("p", func(ctx context.Context, args ...object.Object) object.Object { return w.param(args) }),
 		"modhook": object.NewBuiltin("modhook", func(ctx context.Context, args ...object.Object) object.Object { return w.modhook() }),
+	}
+	for _, name := range c07GlobalNames {
+		w.hostObjs = append(w.hostObjs, globals[name].(object.Object))
 	}
 	c, err := compiler.New(compiler.WithGlobalNames(c07GlobalNames))
 	if err != nil {
@@ -338,6 +465,95 @@ func (w *c07World) modhook() object.Object {
 		w.cancel(w.inv.ctxID(w.k))
 	}
 	return object.NewInt(int64(c07Mode(w.inv.Beh)))
+}
+
+// got: vm.Get(name) on this world's VM, rendered as the oracle renders the model's answer:
+// nocode | notfound | nil (a slot whose definition has not been executed) | host<i> (the very
+// object the host supplied under its i-th name) | fn:<name>@<owner> (owner = the root code object
+// the function was compiled in: main | c<j> | setup) | int:<v>
+func (w *c07World) got(tok string) (out string) {
+	defer func() {
+		if r := recover(); r != nil {
+			out = fmt.Sprintf("PANIC(%v)", r)
+		}
+	}()
+	obj, err := w.m.Get(c07TokName(tok))
+	if err != nil {
+		switch {
+		case errors.Is(err, vm.ErrGlobalNotFound):
+			return "notfound"
+		case strings.Contains(err.Error(), "no active code"):
+			return "nocode"
+		}
+		return "err(" + err.Error() + ")"
+	}
+	return w.renderVal(obj)
+}
+
+func (w *c07World) renderVal(obj object.Object) string {
+	if obj == nil {
+		return "nil"
+	}
+	for i, h := range w.hostObjs {
+		if h == obj {
+			return "host" + strconv.Itoa(i)
+		}
+	}
+	switch o := obj.(type) {
+	case *object.Function:
+		return "fn:" + c07NameTok(o.Name()) + "@" + w.ownerOf(o)
+	case *object.Int:
+		return "int:" + strconv.FormatInt(o.Value(), 10)
+	}
+	s := obj.Inspect()
+	if len(s) > 40 {
+		s = s[:40]
+	}
+	return "?" + string(obj.Type()) + "(" + s + ")"
+}
+
+func (w *c07World) ownerOf(f *object.Function) string {
+	if f.Code() == nil {
+		return "nocode"
+	}
+	root := f.Code().Root()
+	if root == w.comp.Code() {
+		return "main"
+	}
+	if w.setupCode != nil && root == w.setupCode {
+		return "setup"
+	}
+	best := -1
+	for j, c := range w.codes {
+		if c == root && (best < 0 || j < best) {
+			best = j
+		}
+	}
+	if best >= 0 {
+		return "c" + strconv.Itoa(best)
+	}
+	return "other"
+}
+
+func (w *c07World) gots(toks []string) []string {
+	out := make([]string, len(toks))
+	for i, t := range toks {
+		out[i] = w.got(t)
+	}
+	return out
+}
+
+// names: vm.GlobalNames() as tokens
+func (w *c07World) names() (out []string) {
+	defer func() {
+		if r := recover(); r != nil {
+			out = []string{fmt.Sprintf("PANIC(%v)", r)}
+		}
+	}()
+	for _, n := range w.m.GlobalNames() {
+		out = append(out, c07NameTok(n))
+	}
+	return out
 }
 
 // ctxFor returns the context object with the given id, creating it on first use
@@ -417,9 +633,13 @@ func (w *c07World) hook() object.Object {
 	return object.NewInt(c07HookValue)
 }
 
-func c07Defs(s string) string {
-	return fmt.Sprintf(`func over%[1]s(n) { return over%[1]s(n+1) }
-func act%[1]s(mode, n, v, b, im) {
+// c07Defs: the definitions of a script.  `s` is the suffix of the function names: "" for the code
+// objects handed to RunCode and for the definitions a Call loads (the SAME names act/over/who/...
+// in every such code object, in the slots the layout gives them), "_k" for REPL snippet k (the
+// REPL's main code cannot define a name twice).  `who` identifies the code object.
+func c07Defs(s string, lay c07Lay, who int) string {
+	over := fmt.Sprintf("func over%[1]s(n) { return over%[1]s(n+1) }\n", s)
+	act := fmt.Sprintf(`func act%[1]s(mode, n, v, b, im) {
   if n > 0 { return act%[1]s(mode, n-1, v, b, im) }
   if im == 1 || im == 3 { import hostmod }
   if im >= 2 {
@@ -434,6 +654,26 @@ func act%[1]s(mode, n, v, b, im) {
   return v + 1000*len(acc)
 }
 `, s)
+	var b strings.Builder
+	if s == "" {
+		for i := 0; i < lay.Fills; i++ {
+			fmt.Fprintf(&b, "func f%d() { return %d }\n", i, i)
+		}
+	}
+	if s == "" && lay.Swap {
+		b.WriteString(act)
+		b.WriteString(over)
+	} else {
+		b.WriteString(over)
+		b.WriteString(act)
+	}
+	if s == "" {
+		for i := 0; i < lay.Pads; i++ {
+			fmt.Fprintf(&b, "g%d := %d\n", i, 10+i)
+		}
+		fmt.Fprintf(&b, "who := %d\n", who)
+	}
+	return b.String()
 }
 
 func c07Mode(beh string) int {
@@ -541,6 +781,19 @@ func c07Compile(c *compiler.Compiler, src string) *compiler.Code {
 	return code
 }
 
+// c07CompileWith compiles a source on its own, with the given order of the host's global names
+func c07CompileWith(globalNames []string, src string) *compiler.Code {
+	ast, err := parser.Parse(context.Background(), src)
+	if err != nil {
+		panic(fmt.Sprintf("C07 template does not parse: %v\n%s", err, src))
+	}
+	code, err := compiler.Compile(ast, compiler.WithGlobalNames(globalNames))
+	if err != nil {
+		panic(fmt.Sprintf("C07 template does not compile: %v\n%s", err, src))
+	}
+	return code
+}
+
 type c07Obs struct {
 	Outcome    string
 	SP, FP     int
@@ -558,6 +811,11 @@ type c07Obs struct {
 	Gen        int    // RunCode: growth snippets the code object contains when the invocation starts
 	Result     object.Object // the object a successful invocation handed to the host
 	ResultPend int
+	PreGots    []string // answers of vm.Get for LkPre, before the invocation
+	PostGots   []string // ... for LkPost, after it
+	Names      []string // vm.GlobalNames() after it
+	CallName   string   // Call: the name of the function fetched with vm.Get
+	OwnCode    int      // id of the code object the invocation was handed (RunCode), -1 otherwise
 }
 
 func (o c07Obs) stateString() string {
@@ -588,8 +846,8 @@ func (w *c07World) grow(j int) {
 
 // newCode compiles the script of a RunCode invocation into a code object of its own, through an
 // incremental compiler that the host keeps (so that it can compile further snippets into it)
-func (w *c07World) newCode(k int, src string, gen int) *compiler.Code {
-	c, err := compiler.New(compiler.WithGlobalNames(c07GlobalNames))
+func (w *c07World) newCode(k int, src string, gen int, lay c07Lay) *compiler.Code {
+	c, err := compiler.New(compiler.WithGlobalNames(lay.globalNames()))
 	if err != nil {
 		panic(err)
 	}
@@ -606,8 +864,9 @@ func (w *c07World) newCode(k int, src string, gen int) *compiler.Code {
 
 // invoke executes invocation k on this world's VM.  `refDead`/`refGen`: on a reference VM the
 // context is cancelled beforehand / the code object is compiled with that many growth snippets.
-func (w *c07World) invoke(k int, v c07Inv, refDead bool, refGen int) (obs c07Obs) {
+func (w *c07World) invoke(k int, v c07Inv, refDead bool, refGen int, refOwn int) (obs c07Obs) {
 	w.k, w.inv = k, v
+	obs.OwnCode = -1
 	w.leafFP, w.leafRun, w.hookHits, w.modHits, w.traceHits = -1, false, 0, 0, 0
 	cid := v.ctxID(k)
 	if !w.isRef {
@@ -621,6 +880,7 @@ func (w *c07World) invoke(k int, v c07Inv, refDead bool, refGen int) (obs c07Obs
 		w.cancel(cid)
 	}
 	obs.PreHalt = w.m.VerifState().Halt
+	obs.PreGots = w.gots(v.LkPre)
 	ctx := context.Background()
 	if !v.Bg {
 		ctx = w.ctxFor(cid)
@@ -659,7 +919,7 @@ func (w *c07World) invoke(k int, v c07Inv, refDead bool, refGen int) (obs c07Obs
 		}
 	}
 	defer func() { vm.VerifTrace = nil }()
-	suffix := "_" + strconv.Itoa(k)
+	suffix := "_" + strconv.Itoa(k) // REPL snippets; the code objects of RunCode and Call's definitions use the bare names
 	var err error
 	var result object.Object
 	func() {
@@ -675,15 +935,23 @@ func (w *c07World) invoke(k int, v c07Inv, refDead bool, refGen int) (obs c07Obs
 				// the very object an earlier invocation ran - with whatever the host has compiled
 				// into it since
 				code = w.codes[v.Same-1]
-				suffix = "_" + strconv.Itoa(v.Same-1)
 				obs.Gen = w.gens[v.Same-1]
+				obs.OwnCode = v.Same - 1
 				w.compilers[k], w.gens[k] = w.compilers[v.Same-1], w.gens[v.Same-1]
+				w.codes[k] = code
 			} else {
-				code = w.newCode(k, c07Defs(suffix)+c07Expr(suffix, v), refGen)
+				// on a reference VM the code object stands for the one the invocation was handed
+				// on the reused VM (same contents, same identity mark `who`)
+				id := k
+				if w.isRef {
+					id = refOwn
+				}
+				code = w.newCode(id, c07Defs("", v.Lay, 100+id)+c07Expr("", v), refGen, v.Lay)
 				obs.Gen = refGen
+				obs.OwnCode = id
+				w.codes[id] = code
 			}
-			w.codes[k] = code
-			w.curName, w.hasCode = suffix, true
+			w.curName, w.hasCode = "", true
 			arm()
 			err = w.m.RunCode(ctx, code)
 			if err == nil {
@@ -697,7 +965,7 @@ func (w *c07World) invoke(k int, v c07Inv, refDead bool, refGen int) (obs c07Obs
 			// REPL protocol: append the snippet to main, start at the snippet, and move
 			// ip past the snippet if the run failed
 			start := w.comp.Code().InstructionCount()
-			code := c07Compile(w.comp, c07Defs(suffix)+c07Expr(suffix, v))
+			code := c07Compile(w.comp, c07Defs(suffix, c07Lay{}, 0)+c07Expr(suffix, v))
 			w.curName, w.hasCode = suffix, true
 			if w.m.VerifState().IP == start {
 				obs.IPCont = "ip-already-at-snippet"
@@ -720,12 +988,14 @@ func (w *c07World) invoke(k int, v c07Inv, refDead bool, refGen int) (obs c07Obs
 		case "call":
 			if !w.hasCode {
 				// what risor.Call does: load the definitions first
-				if e := w.m.RunCode(context.Background(), c07Compile(nil, c07Defs("_s"))); e != nil {
+				w.setupCode = c07CompileWith(v.Lay.globalNames(), c07Defs("", v.Lay, 99))
+				if e := w.m.RunCode(context.Background(), w.setupCode); e != nil {
 					err = fmt.Errorf("setup failed: %w", e)
 					return
 				}
-				w.curName, w.hasCode = "_s", true
+				w.curName, w.hasCode = "", true
 			}
+			obs.CallName = c07NameTok("act" + w.curName)
 			fnObj, e := w.m.Get("act" + w.curName)
 			if e != nil {
 				err = fmt.Errorf("get failed: %w", e)
@@ -777,18 +1047,29 @@ func (w *c07World) invoke(k int, v c07Inv, refDead bool, refGen int) (obs c07Obs
 	st := w.m.VerifState()
 	obs.SP, obs.FP, obs.Halt, obs.Running, obs.StartCount = st.SP, st.FP, st.Halt, st.Running, st.StartCount
 	obs.LeafFP, obs.HookHits, obs.ModHits, obs.Modules = w.leafFP, w.hookHits, w.modHits, st.Modules
+	obs.PostGots = w.gots(v.LkPost)
+	obs.Names = w.names()
 	return obs
 }
 
 // c07Reference: the same invocation on a fresh VM whose host global has the same value.
 // `dead`: it is handed a context that is already cancelled; `gen`: its code object contains
 // that many growth snippets (the code object AS IT IS when the invocation starts).
-func c07Reference(k int, v c07Inv, accLen int, withImporter bool, dead bool, gen int) string {
+// `own`: the id of the code object the invocation was handed on the reused VM.  The look-ups
+// made after the invocation (LkPost) and vm.GlobalNames() are answered by the fresh VM as well.
+type c07Ref struct {
+	Outcome string
+	Gots    []string
+	Names   []string
+}
+
+func c07Reference(k int, v c07Inv, accLen int, withImporter bool, dead bool, gen int, own int) c07Ref {
 	base := runtime.NumGoroutine()
 	w := c07NewWorld(accLen, true, withImporter)
 	defer w.release(base)
-	v.Pre, v.During, v.Same, v.Grows = nil, nil, 0, nil
-	return w.invoke(k, v, dead, gen).Outcome
+	v.Pre, v.During, v.Same, v.Grows, v.LkPre = nil, nil, 0, nil, nil
+	obs := w.invoke(k, v, dead, gen, own)
+	return c07Ref{obs.Outcome, obs.PostGots, obs.Names}
 }
 
 func c07Nontrivial(h []c07Inv) bool {
@@ -796,7 +1077,7 @@ func c07Nontrivial(h []c07Inv) bool {
 		return false
 	}
 	for _, v := range h {
-		if v.Beh != "normal" || len(v.Pre) > 0 || len(v.During) > 0 || v.Same > 0 || v.FImp || v.Ctx > 0 || len(v.Grows) > 0 || (c07MaxPend > 0 && v.Pend == c07MaxPend) {
+		if v.Beh != "normal" || len(v.Pre) > 0 || len(v.During) > 0 || v.Same > 0 || v.FImp || v.Ctx > 0 || len(v.Grows) > 0 || (c07MaxPend > 0 && v.Pend == c07MaxPend) || len(v.LkPre) > 0 || len(v.LkPost) > 0 || v.Lay != (c07Lay{}) {
 			return true
 		}
 	}
@@ -814,19 +1095,25 @@ func c07UsesImporter(h []c07Inv) bool {
 
 type c07Runner struct {
 	e     *Env
-	refs  map[string]string
+	refs  map[string]c07Ref
 	nInv  int
 	nRef  int
 	nWait int
 	last  string
 }
 
-func (r *c07Runner) reference(k int, v c07Inv, accLen int, withImporter bool, dead bool, gen int) string {
-	key := fmt.Sprintf("%s:%s:%d:%d:%d:%d:%v:%v:%v:%v:%v:%d:%v:%d", v.Kind, v.Beh, v.Depth, v.Pend, v.V, v.Bump, v.Bg, v.Imp, v.FImp, v.MFail, withImporter, accLen, dead, gen)
+func (r *c07Runner) reference(k int, v c07Inv, accLen int, withImporter bool, dead bool, gen int, own int) c07Ref {
+	// the index of the invocation is part of the reference only where it is part of the script
+	// (the names of a REPL snippet); the identity of the code object only for RunCode (`who`)
+	kk := -1
+	if v.Kind == "run" {
+		kk = k
+	}
+	key := fmt.Sprintf("%s:%s:%d:%d:%d:%d:%v:%v:%v:%v:%v:%d:%v:%d:%d:%d:%s:%s", v.Kind, v.Beh, v.Depth, v.Pend, v.V, v.Bump, v.Bg, v.Imp, v.FImp, v.MFail, withImporter, accLen, dead, gen, kk, own, v.Lay.String(), c07Toks(v.LkPost))
 	if s, ok := r.refs[key]; ok {
 		return s
 	}
-	s := c07Reference(k, v, accLen, withImporter, dead, gen)
+	s := c07Reference(k, v, accLen, withImporter, dead, gen, own)
 	r.refs[key] = s
 	r.nRef++
 	return s
@@ -856,7 +1143,7 @@ func (r *c07Runner) runHistory(h []c07Inv) {
 		obs       c07Obs
 		accBefore int
 		accAfter  []object.Object
-		ref       string
+		ref       c07Ref
 		timeouts  int
 		leafRun   bool
 	}
@@ -874,14 +1161,14 @@ func (r *c07Runner) runHistory(h []c07Inv) {
 		r.nInv++
 		x := &runs[k]
 		x.accBefore = len(w.acc.Value())
-		x.obs = w.invoke(k, v, false, 0)
+		x.obs = w.invoke(k, v, false, 0, 0)
 		x.leafRun = w.leafRun
 		x.timeouts, w.timeouts = w.timeouts, 0
 		x.accAfter = append([]object.Object(nil), w.acc.Value()...)
 		h[k].Sched = x.obs.Sched
 		// Code vs Spec: the same invocation on a fresh VM with the same globals, the same code
 		// object contents and a context in the same state
-		x.ref = r.reference(k, v, x.accBefore, withImporter, x.obs.Dead, x.obs.Gen)
+		x.ref = r.reference(k, v, x.accBefore, withImporter, x.obs.Dead, x.obs.Gen, x.obs.OwnCode)
 		if x.obs.Result != nil && k+1 < len(h) {
 			results = append(results, kept{k, x.obs.Result, x.obs.ResultPend, x.obs.Outcome})
 		}
@@ -897,9 +1184,9 @@ func (r *c07Runner) runHistory(h []c07Inv) {
 	}
 	for k, v := range h {
 		x := runs[k]
-		obs, accBefore, ref := x.obs, x.accBefore, x.ref
+		obs, accBefore, ref := x.obs, x.accBefore, x.ref.Outcome
 		m := strings.Split(reply[k+1], ",")
-		if len(m) != 18 {
+		if len(m) != 24 {
 			e.R.Mismatch(key, "-", reply[k+1], "malformed oracle reply")
 			return
 		}
@@ -987,6 +1274,71 @@ func (r *c07Runner) runHistory(h []c07Inv) {
 		if ref != modelSpec {
 			e.R.Mismatch(tag+" (fresh VM)", ref, modelSpec, "Lean Spec vs the real outcome on a fresh VM")
 		}
+		// LOOK-UPS BY NAME.  Code vs Impl: every answer of vm.Get before and after the invocation,
+		// vm.GlobalNames() after it, the name a Call fetched its function under
+		modelPre, modelPost, modelSpecs, modelNames, modelTarget, modelSpecNames := c07List(m[18]), c07List(m[19]), c07List(m[20]), c07List(m[21]), m[22], m[23]
+		if got, want := strings.Join(obs.PreGots, ";"), strings.Join(modelPre, ";"); got != want {
+			e.R.Mismatch(tag, got, want, "vm.Get before the invocation, names "+c07Toks(v.LkPre))
+		}
+		if got, want := strings.Join(obs.PostGots, ";"), strings.Join(modelPost, ";"); got != want {
+			e.R.Mismatch(tag, got, want, "vm.Get after the invocation, names "+c07Toks(v.LkPost))
+		}
+		if got, want := strings.Join(obs.Names, ";"), strings.Join(modelNames, ";"); got != want {
+			e.R.Mismatch(tag, got, want, "vm.GlobalNames() after the invocation (the active code's symbol table in slot order)")
+		}
+		if v.Kind == "call" && obs.CallName != "" && obs.CallName != modelTarget {
+			e.R.Mismatch(tag, obs.CallName, modelTarget, "the name under which the host fetches the function it calls")
+		}
+		e.R.H("names_looked_up", fmt.Sprintf("before=%d after=%d", c07Min(len(v.LkPre), 4), c07Min(len(v.LkPost), 4)))
+		if v.Kind != "run" {
+			e.R.H("code_object_layout_global_names", map[bool]string{true: "the host's names", false: "another set (aaa added and/or modhook, hostmod left out)"}[v.Lay.HSet == 0])
+			e.R.H("code_object_layout_definitions", "fillers="+strconv.Itoa(v.Lay.Fills)+" act-before-over="+strconv.Itoa(c07B(v.Lay.Swap))+" variables-before-who="+strconv.Itoa(v.Lay.Pads))
+		}
+		if k > 0 && v.Kind != "run" && h[k-1].Kind != "run" {
+			e.R.H("layout_vs_previous_code_object", map[bool]string{true: "same", false: "different"}[v.Lay == h[k-1].Lay])
+		}
+		lookFinding := ""
+		if modelLost && strings.Join(obs.PostGots, ";") == strings.Join(modelPost, ";") {
+			lookFinding = c07FindingLost
+		}
+		if len(modelSpecs) == len(v.LkPost) && len(obs.PostGots) == len(v.LkPost) && len(x.ref.Gots) == len(v.LkPost) {
+			preAns := map[string]string{}
+			for i, t := range v.LkPre {
+				if i < len(obs.PreGots) {
+					preAns[t] = obs.PreGots[i]
+				}
+			}
+			for i, t := range v.LkPost {
+				if k > 0 {
+					e.R.H("looked_up_name_slot_vs_previously_active_code", c07SlotMove(runs[k-1].obs.Names, obs.Names, t))
+				}
+				if modelSpecs[i] == "~" {
+					// the property demands nothing by itself; a Call of a function of the code an
+					// earlier invocation loaded must leave every name as it was
+					if before, asked := preAns[t]; asked && v.Kind == "call" && before != obs.PostGots[i] {
+						e.R.Spec(key, fmt.Sprintf("invocation %d (%s): vm.Get(%q) answered %s before the Call and %s after it", k, v.String(), c07TokName(t), before, obs.PostGots[i]), "")
+					}
+					continue
+				}
+				// Lean Spec vs the real fresh VM
+				if x.ref.Gots[i] != modelSpecs[i] {
+					e.R.Mismatch(tag+" (fresh VM)", x.ref.Gots[i], modelSpecs[i], "Lean Spec vs vm.Get("+c07TokName(t)+") after the invocation on a fresh VM")
+				}
+				// Code vs Spec
+				if obs.PostGots[i] != x.ref.Gots[i] {
+					e.R.Spec(key, fmt.Sprintf("after invocation %d (%s) on the reused VM vm.Get(%q) answers %s; after the same invocation on a fresh VM it answers %s", k, v.String(), c07TokName(t), obs.PostGots[i], x.ref.Gots[i]), lookFinding)
+					e.R.H("spec_violation_shape", v.Kind+"/lookup "+t)
+				}
+			}
+		}
+		if modelSpecNames != "~" {
+			if got := strings.Join(x.ref.Names, ";"); got != strings.Join(c07List(modelSpecNames), ";") {
+				e.R.Mismatch(tag+" (fresh VM)", got, modelSpecNames, "Lean Spec vs vm.GlobalNames() after the invocation on a fresh VM")
+			}
+			if got, want := strings.Join(obs.Names, ";"), strings.Join(x.ref.Names, ";"); got != want {
+				e.R.Spec(key, fmt.Sprintf("after invocation %d (%s) on the reused VM vm.GlobalNames() = %s; after the same invocation on a fresh VM = %s", k, v.String(), got, want), "")
+			}
+		}
 		if obs.Outcome != ref {
 			finding := ""
 			if modelLost && obs.Outcome == m[0] {
@@ -1022,6 +1374,39 @@ func (r *c07Runner) runHistory(h []c07Inv) {
 			e.R.Mismatch(tag, fmt.Sprintf("len(acc)=%d", len(items)), fmt.Sprintf("len(acc)=%d, the new items = %d", wantAcc, v.V), "host global after the invocation (appends happen iff the leaf is reached)")
 		}
 	}
+}
+
+// c07List splits a `;`-joined list of the oracle (`-` = empty)
+func c07List(s string) []string {
+	if s == "-" || s == "" {
+		return nil
+	}
+	return strings.Split(s, ";")
+}
+
+// c07SlotMove: where a looked-up name lives in the active code's table, against the table of the
+// code that was active after the previous invocation
+func c07SlotMove(prev, now []string, tok string) string {
+	idx := func(xs []string) int {
+		for i, x := range xs {
+			if x == tok {
+				return i
+			}
+		}
+		return -1
+	}
+	a, b := idx(prev), idx(now)
+	switch {
+	case a < 0 && b < 0:
+		return "in neither table"
+	case a < 0:
+		return "new name"
+	case b < 0:
+		return "name gone"
+	case a == b:
+		return "same slot"
+	}
+	return "MOVED to another slot"
 }
 
 func c07Min(a, b int) int {
@@ -1063,6 +1448,16 @@ func c07Placements(k int) [][2][]int {
 	return out
 }
 
+// c07RandLay: a layout of a code object's globals; mostly small differences, so that the tables of
+// consecutive code objects overlap in length and a name's slot in one is a valid slot of the other
+func c07RandLay(rng *RNG) c07Lay {
+	l := c07Lay{Fills: rng.Intn(3), Swap: rng.Chance(50), Pads: rng.Intn(4)}
+	if rng.Chance(35) {
+		l.HSet = 1 + rng.Intn(7)
+	}
+	return l
+}
+
 func (r *c07Runner) randInv(k int, rng *RNG) c07Inv {
 	v := c07Inv{Kind: Pick(rng, c07Kinds), Beh: Pick(rng, c07Behs)}
 	v.Depth = Pick(rng, []int{0, 0, 1, 2, 3, 7, 40})
@@ -1074,6 +1469,9 @@ func (r *c07Runner) randInv(k int, rng *RNG) c07Inv {
 	if rng.Chance(35) {
 		v.FImp = true
 		v.MFail = rng.Chance(60)
+	}
+	if rng.Chance(65) {
+		v.Lay = c07RandLay(rng)
 	}
 	if k > 0 && rng.Chance(40) {
 		// re-supply the code object of an earlier invocation (c07Canon drops impossible choices)
@@ -1136,8 +1534,8 @@ func (r *c07Runner) randInv(k int, rng *RNG) c07Inv {
 }
 
 func c07_runC07(e *Env) {
-	r := &c07Runner{e: e, refs: map[string]string{}}
-	e.R.Rule = "case = one history (list of Run/RunCode/Call invocations with behaviour, depth, pending operands, global appends, context kind, the placements of cancel(ctx_i) of earlier contexts before/during each later invocation, which context OBJECT it is handed (its own, a named one shared with other invocations, the one of an earlier invocation - possibly cancelled mid-run earlier, while the VM was idle, or before its first use), whether RunCode re-supplies the *compiler.Code object of an earlier invocation (runcode@j) and which code objects the host has compiled further snippets into before the invocation (grows), whether the script imports a global module and/or a file module through the VM's importer and whether the run ends inside that module's top-level code (imp 2m/3m); pending operands = the measured maximum make the invocation a stack-headroom probe) executed on ONE real VM; every invocation is compared with the Lean Impl model (outcome + sp, fp, halt, running, startCount, halt before start, fp at the leaf, len(vm.modules), leaf reached, module code executed) and with the same invocation on a fresh VM with the same globals and importer, a code object with the same CURRENT contents and a context in the same state (Spec); where the code leaves the order to the Go scheduler (the watcher of an already cancelled context) the run is held at its first instruction until the watcher has exited and the observed schedule is given to the model; after the history the result objects of all earlier successful invocations must still read as they did when returned (Spec), and the host global holds exactly the appends of the invocations that reached their leaf (Impl). distinct = canonical history text; non-trivial = length >= 2 and at least one abnormal ending, cancellation of a context, shared/named context, re-supplied or grown code object, file-module import or headroom probe"
+	r := &c07Runner{e: e, refs: map[string]c07Ref{}}
+	e.R.Rule = "case = one history (list of Run/RunCode/Call invocations with behaviour, depth, pending operands, global appends, context kind, the placements of cancel(ctx_i) of earlier contexts before/during each later invocation, which context OBJECT it is handed (its own, a named one shared with other invocations, the one of an earlier invocation - possibly cancelled mid-run earlier, while the VM was idle, or before its first use), whether RunCode re-supplies the *compiler.Code object of an earlier invocation (runcode@j) and which code objects the host has compiled further snippets into before the invocation (grows), whether the script imports a global module and/or a file module through the VM's importer and whether the run ends inside that module's top-level code (imp 2m/3m); pending operands = the measured maximum make the invocation a stack-headroom probe) ; the LAYOUT of the globals of the code object compiled for the invocation (lay: which global names it is compiled with, how many functions and variables are defined before act/over/who, in which order - so that ONE name lives in different slots of the code objects the VM runs one after the other; RunCode and the definitions a Call loads use the same names act/over/who/f<i>/g<i> in every code object) and the NAMES the host looks up with vm.Get before (lkpre) and after (lkpost) the invocation, besides the function every Call fetches by name) executed on ONE real VM; every invocation is compared with the Lean Impl model (outcome + sp, fp, halt, running, startCount, halt before start, fp at the leaf, len(vm.modules), leaf reached, module code executed, every answer of vm.Get - no active code / not found / unset slot / the host's own object / the function of which code object / the integer -, vm.GlobalNames() in slot order, the name a Call fetches) and with the same invocation on a fresh VM with the same globals and importer, a code object with the same CURRENT contents and a context in the same state (Spec: outcome, the answer to every look-up made after an invocation that loads code, vm.GlobalNames(); after a Call into code an earlier invocation loaded every name must resolve as before the Call); where the code leaves the order to the Go scheduler (the watcher of an already cancelled context) the run is held at its first instruction until the watcher has exited and the observed schedule is given to the model; after the history the result objects of all earlier successful invocations must still read as they did when returned (Spec), and the host global holds exactly the appends of the invocations that reached their leaf (Impl). distinct = canonical history text; non-trivial = length >= 2 and at least one abnormal ending, cancellation of a context, shared/named context, re-supplied or grown code object, file-module import, headroom probe, non-default layout or look-up by name"
 	t0 := time.Now()
 	defer func() {
 		if c07ModDir != "" {
@@ -1299,12 +1697,65 @@ func c07_runC07(e *Env) {
 			{Kind: "call", Beh: "normal", V: 4, Bump: 1, Ctx: 1 + 100}})
 	}
 
+	// 0h. NAMES MOVE BETWEEN CODE OBJECTS.  The code objects a reused VM runs one after the other
+	// lay their globals out differently (host names rotated, more or fewer definitions before a
+	// name, definitions in another order), so the SAME name - `act`, `over`, `who`, a host name -
+	// lives in different slots; the host looks names up (vm.Get, vm.GlobalNames) before and after
+	// every invocation and fetches the function of every Call by name (risor.Call = RunCode + Get +
+	// Call).  Every answer must be the one a fresh VM gives after the same invocation.
+	{
+		lays := []c07Lay{{}, {Fills: 1}, {Swap: true}, {Fills: 2, Pads: 2}, {HSet: 1}, {HSet: 6, Fills: 1, Swap: true, Pads: 3}, {Pads: 1}}
+		rc := func(l c07Lay, beh string, same int) c07Inv {
+			return c07Inv{Kind: "runcode", Beh: beh, Depth: 1, Pend: 1, V: 5, Bump: 1, Lay: l, Same: same}
+		}
+		call := func(l c07Lay, beh string) c07Inv {
+			return c07Inv{Kind: "call", Beh: beh, Depth: 1, V: 6, Bump: 1, Lay: l}
+		}
+		run := func(beh string) c07Inv { return c07Inv{Kind: "run", Beh: beh, Depth: 1, Pend: 1, V: 7, Bump: 1} }
+		// look: 0 = the host asks for every name after every invocation, 1 = only before (and
+		// for) the Calls, 2 = before and after, 3 = never (only the Calls fetch their function)
+		withLooks := func(h []c07Inv, look int) []c07Inv {
+			h = append([]c07Inv(nil), h...)
+			for k := range h {
+				u := c07Universe(h, k)
+				if look == 0 || look == 2 {
+					h[k].LkPost = u
+				}
+				if (look == 1 && h[k].Kind == "call") || (look == 2 && k > 0) {
+					h[k].LkPre = u
+				}
+			}
+			return h
+		}
+		for ai, a := range lays {
+			for bi, b := range lays {
+				if ai == bi {
+					continue
+				}
+				for look := 0; look < 4; look++ {
+					// risor.Call on a reused VM, twice, with two programs
+					r.runHistory(withLooks([]c07Inv{rc(a, "normal", 0), call(a, "normal"), rc(b, "normal", 0), call(b, "normal")}, look))
+					// the definitions a Call loads, then another program, then a Call again
+					r.runHistory(withLooks([]c07Inv{call(a, "normal"), rc(b, "normal", 0), call(a, "err"), call(a, "normal")}, look))
+					// the REPL in between; the first object handed in again at the end
+					r.runHistory(withLooks([]c07Inv{rc(a, "normal", 0), run("normal"), call(a, "normal"), rc(b, "normal", 0), call(b, "normal"), rc(a, "normal", 1), call(a, "normal")}, look))
+				}
+				// every ending of the first program, everything looked up
+				for _, beh := range c07Behs {
+					r.runHistory(withLooks([]c07Inv{rc(a, beh, 0), rc(b, "normal", 0), call(b, "normal")}, 0))
+					r.runHistory(withLooks([]c07Inv{rc(a, "normal", 0), call(a, beh), rc(b, beh, 0), call(b, "normal"), run(beh), call(a, "normal")}, 2))
+				}
+			}
+		}
+	}
+
 	// 0b. one long RunCode-only history (1100 invocations, cheap endings, pending operands):
 	// storage that is not reset between runs shows up as exhaustion long before the end
 	{
 		long := make([]c07Inv, 1100)
 		for k := range long {
-			long[k] = c07Inv{Kind: "runcode", Beh: []string{"normal", "err", "panic", "normal"}[k%4], Depth: k % 3, Pend: (k / 4) % 3, V: 1 + k%7}
+			long[k] = c07Inv{Kind: "runcode", Beh: []string{"normal", "err", "panic", "normal"}[k%4], Depth: k % 3, Pend: (k / 4) % 3, V: 1 + k%7,
+				Lay: c07Lay{Fills: k % 3, Swap: k%2 == 1, Pads: (k / 3) % 4, HSet: (k / 7) % 8}, LkPost: []string{"a0", "w", "x", "h2"}}
 			if k > 0 && k%5 == 0 {
 				long[k].Pre = []int{k - 1}
 			}
@@ -1317,7 +1768,7 @@ func c07_runC07(e *Env) {
 	{
 		long := make([]c07Inv, 1100)
 		for k := range long {
-			long[k] = c07Inv{Kind: "runcode", Beh: []string{"normal", "err", "panic", "normal"}[k%4], Depth: k % 3, Pend: 1, V: 1 + k%7}
+			long[k] = c07Inv{Kind: "runcode", Beh: []string{"normal", "err", "panic", "normal"}[k%4], Depth: k % 3, Pend: 1, V: 1 + k%7, LkPost: []string{"a0", "w"}}
 			if k > 0 {
 				long[k].Same = 1
 			}
@@ -1332,6 +1783,7 @@ func c07_runC07(e *Env) {
 	// earlier-context cancellation; the remaining parameters vary with the position
 	depthAt := []int{0, 2, 1, 3}
 	pendAt := []int{0, 1, 2, 0}
+	layAt := []c07Lay{{}, {Fills: 1, Pads: 1}, {HSet: 3, Swap: true}, {Fills: 2}}
 	maxLen := 3
 	var rec func(h []c07Inv, n int)
 	rec = func(h []c07Inv, n int) {
@@ -1360,7 +1812,12 @@ func c07_runC07(e *Env) {
 								continue
 							}
 						}
-						v := c07Inv{Kind: kind, Beh: beh, Depth: depthAt[k], Pend: pendAt[k], V: 11 + 7*k, Bump: 1 + k%2, Imp: iv[0], FImp: iv[1], MFail: iv[2], Pre: pl[0], During: pl[1]}
+						v := c07Inv{Kind: kind, Beh: beh, Depth: depthAt[k], Pend: pendAt[k], V: 11 + 7*k, Bump: 1 + k%2, Imp: iv[0], FImp: iv[1], MFail: iv[2], Pre: pl[0], During: pl[1], Lay: layAt[k]}
+						// the host asks for every name after every invocation, and before every later one
+						v.LkPost = c07Universe(append(h, v), k)
+						if k > 0 {
+							v.LkPre = v.LkPost
+						}
 						rec(append(h, v), n)
 						if kind == "runcode" && k > 0 && h[k-1].Kind == "runcode" && n < 3 {
 							// the previous invocation's code object, supplied again
@@ -1389,6 +1846,11 @@ func c07_runC07(e *Env) {
 								h := []c07Inv{{Kind: k0, Beh: b0}, {Kind: k1, Beh: b1}, {Kind: k2, Beh: b2}}
 								for k := range h {
 									h[k].Depth, h[k].Pend, h[k].V, h[k].Bump = depthAt[k], pendAt[k], 11+7*k, 1+k%2
+									h[k].Lay = c07RandLay(e.Rng)
+									h[k].LkPost = c07Universe(h, k)
+									if e.Rng.Chance(50) {
+										h[k].LkPre = h[k].LkPost
+									}
 									pl := Pick(e.Rng, c07Placements(k))
 									h[k].Pre, h[k].During = pl[0], pl[1]
 									iv := c07ImpVariants[0]
@@ -1432,6 +1894,29 @@ func c07_runC07(e *Env) {
 		h := make([]c07Inv, length)
 		for k := range h {
 			h[k] = r.randInv(k, rng)
+		}
+		// which names the host looks up, before and after each invocation: everything, a few, nothing
+		for k := range h {
+			u := c07Universe(h, k)
+			pick := func() []string {
+				switch rng.Intn(4) {
+				case 0:
+					return nil
+				case 1:
+					var out []string
+					for _, t := range u {
+						if rng.Chance(25) {
+							out = append(out, t)
+						}
+					}
+					return out
+				}
+				return u
+			}
+			h[k].LkPost = pick()
+			if rng.Chance(40) {
+				h[k].LkPre = pick()
+			}
 		}
 		r.runHistory(h)
 		done++
